@@ -1056,6 +1056,37 @@ func exec(op string) string {
 			return "skip"
 		}
 		return cur.reset()
+	case "rs": // the SAME Wire value (<n> buffers) is passed to Send twice: a retransmission, a cached packet served again
+		if cur == nil || cur.wc == nil || len(f) != 2 {
+			return "skip"
+		}
+		if len(cur.blocks) < 1 {
+			return "skip"
+		}
+		{
+			a := cur.blocks[0]
+			cur.blocks = cur.blocks[1:]
+			wc := cur.wc
+			wc.mu.Lock()
+			wc.written, wc.nwrites, wc.armed = nil, 0, false
+			wc.mu.Unlock()
+			wire := split(a, common.Atoi(f[1]))
+			res := common.Guard(func() string {
+				if err := cur.face.Send(wire); err != nil {
+					return "send-error"
+				}
+				if err := cur.face.Send(wire); err != nil {
+					return "send-error"
+				}
+				return "ok"
+			})
+			if res != "ok" {
+				return res
+			}
+			wc.mu.Lock()
+			defer wc.mu.Unlock()
+			return fmt.Sprintf("k=%d f=%s", 2*len(a), frameBytes(wc.written))
+		}
 	case "cs": // two goroutines Send on one StreamFace: a Wire of <na> buffers and one of <nb> buffers
 		if cur == nil || cur.wc == nil || len(f) != 3 {
 			return "skip"
@@ -1684,6 +1715,11 @@ func genAppSend(g *common.Gen, r *common.Rand) {
 		}
 		g.Op("cs %d %d", r.Range(1, 4), common.Pick(r, []int{1, 1, 1, 2, 3}))
 		g.Stat("cs")
+		if r.Chance(1, 3) {
+			sizedBlock(g, r, r.Range(2, 900))
+			g.Op("rs %d", r.Range(1, 4))
+			g.Stat("rs")
+		}
 	}
 	g.Op("eof")
 }
